@@ -25,7 +25,7 @@ NEVER_FROM = {"C20"}
 NEVER_INTO = set()
 # rejection / non-interference does not depend on what the operations compute - but it does depend on the recorded dimensions being
 # the true ones: C20 imports only the shape-bookkeeping families (constructors, resize, delete/transpose shape updates)
-ONLY_FAMILIES = {"C20": ("shape", "edit", "transpose-shape", "transpose")}
+ONLY_FAMILIES = {"C20": ("shape", "edit", "transpose-shape", "transpose", "lookup", "lengths")}
 SAME_ANCHOR = {("C09", "C08")}   # (P, Q): Q's rules at P's own anchor functions are imported too (convergence needs the residual bookkeeping)
 F64_ONLY = {"C08", "C09", "C16"}   # Sparse<f64> Krylov solvers, Vector<f64>::dot_f64: their anchors are monomorphic in f64
 SKIP_FAMILIES = ("floor", "engine", "intact", "state", "no-hidden-state", "no-unsafe", "guard", "witness", "pdb", "anchor",
